@@ -164,6 +164,9 @@ def check_object(obj, exp, where):
     elif cls == "ValPDF":
         from . import bindings_approx
         bindings_approx.check_valpdf(obj, exp, where)
+    elif cls == "Closure":
+        if not callable(obj):
+            raise Mismatch(where + ".class", type(obj).__name__, "callable", "deferred form must return a function")
     elif cls in ("LRBF", "LSEM", "HetExp", "HetCosh", "HetStep", "HetRelu", "ApproxCond"):
         pass      # opaque to the specification's object comparison; exercised through their operations
     elif cls in ("Trunc", "TruncPDF"):
@@ -414,7 +417,7 @@ def make_flags(st):
 
 
 # steps that are never wrapped in jit: they patch globals / run python-side statistics / are no library call
-NOJIT = {"Nop", "Sample", "NewNN", "NewTrunc", "TruncIntegrate", "TruncCall", "TruncGetDensity", "TruncStat"}
+NOJIT = {"Nop", "Sample", "NewNN", "IntLogCondYDefer", "ApplyClosure", "NewTrunc", "TruncIntegrate", "TruncCall", "TruncGetDensity", "TruncStat"}
 
 
 SHARED_JIT_ACTS = {"NNOp", "SetControl"}
